@@ -369,6 +369,42 @@ def ob_penalty(env, which="upper"):
         env.claim("mask_in_[0,1]", -1e-12 <= mm <= 1 + 1e-12)
 
 
+def ob_penalty_baffle(env):
+    """calcPenaltyMask with a NON-CONVEX wall: a box with a thin finger (baffle) rising from the floor.  Both y-faces lie on the straight line from the
+    wall's centre through the finger and out through the floor, at symbolic positions: a face behind the finger and below the floor is reached through
+    THREE wall crossings and is outside; a face in the pocket behind the finger (two crossings) is inside"""
+    sym = env.mode == "sym"
+    env.resolve_abs = False
+    env.abstract_div = False
+    env.logic = "QF_NRA"
+    # wall (anticlockwise): floor with a finger between R = 1 and R = 1.2 rising to Z = -1
+    wall = numpy.array([(0.0, -2.0), (1.0, -2.0), (1.0, -1.0), (1.2, -1.0), (1.2, -2.0), (4.0, -2.0), (4.0, 2.0), (0.0, 2.0), (0.0, -2.0)])
+    # the line p(t) = (2, 0) + t*(-1.5, -2.5) meets the wall at t = 8/15 (R = 1.2), t = 2/3 (R = 1) and t = 4/5 (Z = -2)
+    case = env.choose(3)
+    if case == 0:      # both faces below the floor behind the finger (3 crossings each)
+        t1, t2 = env.real("t_face_lower", lo=0.82, hi=0.95), env.real("t_face_upper", lo=0.97, hi=1.1)
+    elif case == 1:    # lower-index face in the pocket behind the finger (2 crossings: inside), the other below the floor
+        t1, t2 = env.real("t_face_lower", lo=0.69, hi=0.78), env.real("t_face_upper", lo=0.82, hi=1.1)
+    else:              # both faces in the pocket
+        t1, t2 = env.real("t_face_lower", lo=0.68, hi=0.72), env.real("t_face_upper", lo=0.74, hi=0.79)
+    env.tag(("both_beyond_floor", "pocket_and_beyond", "both_in_pocket")[case])
+    pt = lambda t: (2.0 - 1.5 * t, -2.5 * t)   # noqa: E731
+    with sym_numpy(env, mla_mod, mesh_mod, eqm):
+        r = stub_region(1, 1, True)
+        r.Rxy, r.Zxy = MultiLocationArray(1, 1), MultiLocationArray(1, 1)
+        (r.Rxy.ylow[0, 0], r.Zxy.ylow[0, 0]), (r.Rxy.ylow[0, 1], r.Zxy.ylow[0, 1]) = pt(t1), pt(t2)
+        eq = types.SimpleNamespace(Rmin=0.0, Rmax=4.0, Zmin=-2.0, Zmax=2.0, closed_wallarray=wall)
+        r.calcPenaltyMask(eq)
+    env.witness("mask_computed")
+    m = r.penalty_mask[0, 0]
+    want = {0: 1, 1: None, 2: 0}[case]
+    if want is not None:
+        env.claim_eq("mask_by_crossing_parity(0_inside,1_outside)", m, want)
+    else:
+        # the cell is cut by the floor at t = 4/5: outside fraction of the straight cell
+        env.claim_eq("mask=outside_fraction_of_the_cut_cell", m, (t2 - 0.8) / (t2 - t1))
+
+
 def _mk_orientation(nv):
     """TokamakEquilibrium stores the wall anticlockwise without touching the caller's list; Equilibrium closes it"""
     def body(env):
@@ -408,6 +444,10 @@ OBLIGATIONS.append(Ob("wall_output_and_file_header", ob_wall_output, tier="quick
                       encodes=["hypnotoad.core.equilibrium:Equilibrium.__init__", "hypnotoad.core.mesh:BoutMesh.writeGridfile"],
                       desc="closed wall = input wall + first point (both columns, order kept); closed_wall_R/Z, nx, ny (without guards), y_boundary_guards, Bt_axis, psi_axis, psi_bdry written from their sources",
                       stubs=["options factory -> placeholder", "DataFile.write -> recorder"], bounds="4 wall vertices, all values symbolic"))
+OBLIGATIONS.append(Ob("penalty_mask_nonconvex_wall", ob_penalty_baffle, tier="quick", family="calcPenaltyMask",
+                      encodes=["hypnotoad.core.mesh:MeshRegion.calcPenaltyMask", "hypnotoad.core.equilibrium:find_intersections"],
+                      desc="box with a baffle: inside/outside by the parity of wall crossings (faces reached through 2 and 3 crossings), cut-cell fraction",
+                      bounds="fixed non-convex wall; both faces on one slanted line through the baffle at symbolic positions (3 position classes)", max_paths=2000))
 for _w in ("lower", "upper"):
     OBLIGATIONS.append(Ob("find_intersection_%s_wall" % _w, _mk_find_intersection(_w), tier="quick", family="_find_intersection",
                           encodes=["hypnotoad.core.mesh:_find_intersection"],
